@@ -295,3 +295,92 @@ fn st_fhm_details_3() {
     fhm_details::<3>()
 }
 
+
+// ---- H2 (encode side): the grpc-message header written for a one-character message --------------------------------
+fn hex(n: u8) -> u8 {
+    if n < 10 {
+        b'0' + n
+    } else {
+        b'A' + (n - 10)
+    }
+}
+/// characters that must be percent-escaped in grpc-message: controls, non-ASCII, space and the gRPC reserved punctuation
+fn must_escape(b: u8) -> bool {
+    b < 0x20 || b >= 0x7f || b == b' ' || b == b'"' || b == b'#' || b == b'%' || b == b'<' || b == b'>' || b == b'`' || b == b'?'
+        || b == b'{' || b == b'}'
+}
+
+#[kani::proof]
+#[kani::unwind(12)]
+#[kani::stub(alloc::fmt::format, fmt_stub)]
+#[kani::stub(std::hash::RandomState::new, random_state_stub)]
+fn st_add_header_msg1() {
+    let c: u8 = kani::any();
+    kani::assume(c < 0x80); // one ASCII character (a one-byte UTF-8 string)
+    let n: u32 = kani::any();
+    kani::assume(n <= 16);
+    let msg = core::str::from_utf8(core::slice::from_ref(&c)).unwrap();
+    let st = Status::new(ref_code(n), msg);
+    let map = st.to_header_map();
+    match &map {
+        Ok(m) => {
+            match m.get(Status::GRPC_STATUS) {
+                Some(v) => assert!(Code::from_bytes(v.as_bytes()) == ref_code(n), "C04: grpc-status written wrongly"),
+                None => assert!(false, "C04: no grpc-status written"),
+            }
+            match m.get(Status::GRPC_MESSAGE) {
+                Some(v) => {
+                    let b = v.as_bytes();
+                    if must_escape(c) {
+                        kani::cover!(c == b'%', "percent sign");
+                        assert!(b.len() == 3 && b[0] == b'%' && b[1] == hex(c >> 4) && b[2] == hex(c & 15),
+                                "C04: a character that needs escaping was written unescaped (the message would not read back equal)");
+                    } else {
+                        kani::cover!(c == b'a', "plain character");
+                        assert!(b.len() == 1 && b[0] == c, "C04: a plain character was altered");
+                    }
+                }
+                None => assert!(false, "C04: grpc-message missing for a non-empty message"),
+            }
+            assert!(m.get(Status::GRPC_STATUS_DETAILS).is_none());
+        }
+        Err(_) => assert!(false, "C04: a legal status could not be written to headers"),
+    }
+    core::mem::forget(map);
+    core::mem::forget(st);
+}
+
+// ---- metadata attached to an error status reaches the headers: repeated key keeps all values in order, reserved name dropped ----
+const K_USER: HeaderName = HeaderName::from_static("x-a");
+
+#[kani::proof]
+#[kani::unwind(12)]
+#[kani::stub(alloc::fmt::format, fmt_stub)]
+#[kani::stub(std::hash::RandomState::new, random_state_stub)]
+fn st_add_header_repeated_md() {
+    let v1: u8 = kani::any();
+    let v2: u8 = kani::any();
+    kani::assume(v1 >= 0x21 && v1 < 0x7f && v2 >= 0x21 && v2 < 0x7f);
+    let mut h = HeaderMap::new();
+    h.append(K_USER, HeaderValue::from_bytes(core::slice::from_ref(&v1)).unwrap());
+    h.append(K_USER, HeaderValue::from_bytes(core::slice::from_ref(&v2)).unwrap());
+    let st = Status::with_metadata(Code::NotFound, "", MetadataMap::from_headers(h));
+    let out = st.to_header_map();
+    match &out {
+        Ok(m) => {
+            let mut it = m.get_all(&K_USER).iter();
+            match (it.next(), it.next(), it.next()) {
+                (Some(a), Some(b), None) => {
+                    assert!(a.as_bytes().len() == 1 && a.as_bytes()[0] == v1, "C08: first value of a repeated metadata key changed");
+                    assert!(b.as_bytes().len() == 1 && b.as_bytes()[0] == v2, "C08: second value of a repeated metadata key changed");
+                }
+                _ => assert!(false, "C08/C02: a repeated metadata key of an error status lost or gained values"),
+            }
+            assert!(m.get(Status::GRPC_STATUS).is_some());
+            kani::cover!(v1 != v2, "two different values");
+        }
+        Err(_) => assert!(false),
+    }
+    core::mem::forget(out);
+    core::mem::forget(st);
+}
